@@ -191,11 +191,14 @@ def rand_circuit(rng, n, length, p_meas=0.3, allow=("gate1", "gate2", "channel",
     return dict(n=n, ops=ops)
 
 
-def with_del_new(rng, spec, p_del=0.5, p_new=0.5):
-    """insert `Del` of a mode after its last use (and possibly `New` modes used afterwards) into a circuit spec:
-    the register then has holes, so subsystem index != position in the register"""
+def with_del_new(rng, spec, p_del=0.5, p_new=0.5, mix_new=0.5):
+    """insert `Del` of a mode after its last use and / or `New` modes used afterwards into a circuit spec:
+    the register then has holes and late modes, so subsystem index != position in the register.  A new mode is squeezed and
+    (with probability `mix_new`) mixed with a surviving old mode on a beamsplitter, so that what the old modes carried when
+    the register grew shows up in the final state."""
     ops_ = [dict(o) for o in spec["ops"]]
     n = spec["n"]
+    t, ds = -1, []
     if rng.random() < p_del and n >= 2:
         # one Del command naming one mode, or several modes in arbitrary (also ascending) order
         ds = rng.sample(range(n), 2 if (n >= 3 and rng.random() < 0.4) else 1)
@@ -205,14 +208,21 @@ def with_del_new(rng, spec, p_del=0.5, p_new=0.5):
                 last = i
         t = rng.randint(last + 1, len(ops_))
         ops_.insert(t, dict(cls="Del", regs=ds, pars=[]))
-        if rng.random() < p_new:
-            t2 = rng.randint(t + 1, len(ops_))
-            k = rng.randint(1, 2)
-            new = list(range(n, n + k))
-            ops_.insert(t2, dict(cls="New", regs=new, pars=[]))
-            for m in new:
-                if rng.random() < 0.7:
-                    ops_.insert(rng.randint(t2 + 1, len(ops_)), dict(cls="Sgate", regs=[m], pars=[0.25, 0.0]))
-                if rng.random() < 0.6:
-                    ops_.append(dict(cls="MeasureFock", regs=[m], pars=[]))
+    if rng.random() < p_new:
+        t2 = rng.randint(t + 1, len(ops_))
+        k = rng.randint(1, 2)
+        new = list(range(n, n + k))
+        ops_.insert(t2, dict(cls="New", regs=new, pars=[]))
+        measured_later = set()
+        for o in ops_[t2 + 1:]:
+            if category(o["cls"]) == "meas":
+                measured_later |= set(o["regs"])
+        old = [m for m in range(n) if m not in ds and m not in measured_later]
+        for m in new:
+            if rng.random() < 0.7:
+                ops_.insert(rng.randint(t2 + 1, len(ops_)), dict(cls="Sgate", regs=[m], pars=[0.25, 0.0]))
+            if old and rng.random() < mix_new:
+                ops_.append(dict(cls="BSgate", regs=rng.sample([m, rng.choice(old)], 2), pars=[0.5, 0.25]))
+            if rng.random() < 0.6:
+                ops_.append(dict(cls="MeasureFock", regs=[m], pars=[]))
     return dict(n=n, ops=ops_)
